@@ -825,6 +825,8 @@ def run_c03(tier, seed, write_evidence, only=None):
 def replay_file(prop, path):
     d = json.load(open(path))
     prop = d.get("property", prop)
+    if prop not in ("C19", "C18", "C03", "C21") or (prop in ("C18", "C21") and "harness" in d):
+        return None     # a Kani harness counterexample: replayed by check.py from its recorded command
     work = os.path.join(TARGET, "tvwork")
     os.makedirs(work, exist_ok=True)
     src = d.get("path")
